@@ -182,6 +182,10 @@ def stop_model(rates, k, max_cycles, fitness_error, es):
 def c04_obs(desc, rec):
     out = []
     opt = desc["optimizer"]
+    if rec.step_limit and not rec.deadlock and any(len(v.get("lb") or []) > 16 for v in desc["task"]["vars"]
+                                                   if isinstance(v.get("lb"), list)):
+        # a task with tens or hundreds of variables: the event budget is a budget, not evidence of non-termination
+        return out
     if rec.step_limit or rec.deadlock:
         out.append({"cls": [opt, "no_termination"], "msg": f"step cap / deadlock: step_limit={rec.step_limit} "
                                                            f"deadlock={rec.deadlock}"})
@@ -512,11 +516,14 @@ def c11_pool(desc, rec):
     # ... and must not produce one another's points: two worker processes of the initial pool whose sequences of
     # evaluated points share a prefix that independent uniform draws would share with probability < 1e-12
     if mode == "process" and rec.base_init and rec.init_positions_by_ctx and \
-            not any(f["kind"].startswith(("stream_", "index_")) or f["kind"] == "objective_scribbles"
+            not any(f["kind"].startswith("index_") or
+                    (f["kind"].startswith("stream_") and desc["task"].get("family") not in CONT_FAMILIES)
                     for f in desc.get("faults") or []):
         lp1 = _log10_coincidence(desc["task"]["vars"])
         by_pool = {}
-        for (pid_, label), seq in rec.init_positions_by_ctx.items():
+        for (pid_, label, parent_), seq in rec.init_positions_by_ctx.items():
+            if rec.via and parent_ == 0:
+                continue        # workers of the driving utility's own pool: each runs a whole (possibly seeded) trial
             by_pool.setdefault(label.split("w")[0], []).append((label, seq))
         done = False
         for pl, workers in by_pool.items():
